@@ -8,7 +8,7 @@ const staticNote = "Static analysis of /repo's current source (type-checked synt
 
 func init() {
 	register("C01", propMeta{
-		Explanation: staticNote + "Decides the code-shape parts of convergence: (R1/R2) the merge decision table is a strict order on timestamps with an order-independent tie-break (table algebra over all ordering cells); (R3) the dump is complete: every non-private DBI reaches readDBI and every cursor entry is appended with key/value/timestamp/flags split out of the header, markers included; (R4) every snapshot DBI is applied through strategy.Update, every key through Get→Merge→setNewVal; (R5) in shadow mode the capture precedes both the dump and the projection. Further (R7): raw-read mode is only ever switched on in the read-only snapshot transaction, and snapshot names sort chronologically (UTC, fixed width), because peers take the last name of an instance as its newest; the mirror loops visit every DBI unconditionally.",
+		Explanation: staticNote + "Decides the code-shape parts of convergence: (R1/R2) the merge decision table is a strict order on timestamps with an order-independent tie-break (table algebra over all ordering cells); (R3) the dump is complete: every non-private DBI reaches readDBI and every cursor entry is appended with key/value/timestamp/flags split out of the header, markers included; (R4) every snapshot DBI is applied through strategy.Update, every key through Get→Merge→setNewVal; (R5) in shadow mode the capture precedes both the dump and the projection. Further (R7): raw-read mode is only ever switched on in the read-only snapshot transaction, and snapshot names sort chronologically (UTC, fixed width), because peers take the last name of an instance as its newest; the mirror loops visit every DBI unconditionally. The walks over the environment's DBI names (dump) and over the snapshot's DBIs (apply) reach a successful return only behind the end of that loop (no `return nil`/`break` inside that would skip the remaining DBIs while the transaction commits); strategy.Update ends successfully only on io.EOF.",
 		NotDecided:  "Actual convergence over histories, delivery orders and clocks; the bucket; LMDB itself.",
 		Assumptions: []string{"convergence of a join-semilattice merge applied to complete state dumps (standard CRDT argument) is not re-proved here", "hooks (FilterReadDBI etc.) are nil by default"},
 	}, func(c *Check) {
@@ -80,7 +80,7 @@ func init() {
 	})
 
 	register("C03", propMeta{
-		Explanation: staticNote + "Decides the structural conditions under which a committed local write can be destroyed: (R1) the projection shadowToMain is only reached after mainToShadow ran in the same transaction or with localChanged == false, and localChanged ≡ lastTxnID < txn.ID()-1 on the caller's watermark; (R2) the transaction id reported as synced must come from inside the transaction (reports the known check-then-act on env.Info()); (R3) the projection's delete decision must depend on the deleted flag (reports the known empty-value defect); (R4) in native mode the load transaction mutates LMDB only through strategy.Update/OpenDBI(Create) and the dump is a read-only view; (R5) at start-up with data, the capture runs before the first load. Further (R8/R9): in the merge table a stored version is replaced or removed only by an LWW winner, for every stale-marker cutoff, and every key is merged against exactly its stored value; the two-sided walk visits every stored key also for an empty input; remote entries are merged with default timestamp 0 and the load-time cutoff.",
+		Explanation: staticNote + "Decides the structural conditions under which a committed local write can be destroyed: (R1) the projection shadowToMain is only reached after mainToShadow ran in the same transaction or with localChanged == false, and localChanged ≡ lastTxnID < txn.ID()-1 on the caller's watermark; (R2) the transaction id reported as synced must come from inside the transaction (reports the known check-then-act on env.Info()); (R3) the projection's delete decision must depend on the deleted flag (reports the known empty-value defect); (R4) in native mode the load transaction mutates LMDB only through strategy.Update/OpenDBI(Create) and the dump is a read-only view; (R5) at start-up with data, the capture runs before the first load. Further (R8/R9): in the merge table a stored version is replaced or removed only by an LWW winner, for every stale-marker cutoff, and every key is merged against exactly its stored value; the two-sided walk visits every stored key also for an empty input; remote entries are merged with default timestamp 0 and the load-time cutoff. The capture pass walks every DBI name to the end before it can return successfully.",
 		NotDecided:  "The interleavings themselves: no schedule is explored.",
 		Assumptions: []string{"LMDB: empty write transactions are not recorded; txn.ID() semantics"},
 	}, func(c *Check) {
@@ -182,7 +182,7 @@ func init() {
 	})
 
 	register("C06", propMeta{
-		Explanation: staticNote + "Decides that a snapshot is assembled inside exactly one LMDB transaction and is complete: (R1) SendOnce runs one transaction whose body and everything it reaches start no other; readers get the body's txn; (R2) private DBIs are skipped, all others dumped; (R3) every cursor entry is appended with exactly key, application value, timestamp and masked flags (no transaction id); (R4) the snapshot time is one time.Now() taken inside the transaction and used for metadata, capture and file name; (R5) name and metadata carry the same database/instance; (R6) the recorded DBI flags are those of the original DBI. Further (R7/R8): the name states the snapshot time in UTC with fixed width and a sanitised instance; raw-read mode is only used in the read-only transaction; header.Parse/Skip split header and application value for every extension count.",
+		Explanation: staticNote + "Decides that a snapshot is assembled inside exactly one LMDB transaction and is complete: (R1) SendOnce runs one transaction whose body and everything it reaches start no other; readers get the body's txn; (R2) private DBIs are skipped, all others dumped; (R3) every cursor entry is appended with exactly key, application value, timestamp and masked flags (no transaction id); (R4) the snapshot time is one time.Now() taken inside the transaction and used for metadata, capture and file name; (R5) name and metadata carry the same database/instance; (R6) the recorded DBI flags are those of the original DBI. Further (R7/R8): the name states the snapshot time in UTC with fixed width and a sanitised instance; raw-read mode is only used in the read-only transaction; header.Parse/Skip split header and application value for every extension count. The dump loop over the DBI names is left successfully only at its end.",
 		NotDecided:  "'Later snapshots carry later times' (clock); LMDB MVCC (trusted given R1).",
 		Assumptions: []string{"hooks (BeforeRead, FilterReadDBI, UpdateSnapshotInfo) are nil by default"},
 	}, func(c *Check) {
@@ -288,7 +288,7 @@ func init() {
 	})
 
 	register("C19", propMeta{
-		Explanation: staticNote + "Extracts and checks the decision tables of the three strategies the syncer uses: (R1) Update: Next → Get → Merge(stored) → setNewVal for every key; (R2) the IterUpdate callback: nine cells (stored-only / input-only / both × nil / equal / changed) each with exactly the prescribed single LMDB mutation or none; (R3) one step of iterBoth: six cells with exact callback arguments and exactly the consumed side(s) advancing; (R4) sortedness: an input key is accepted only if first or strictly greater than the previous one in the selected order, rejected only otherwise; (R5) comparator: integer comparator exactly for integerKey on little-endian hosts, three-way table, decoder widths; (R7) EmptyPut: Drop(dbi, false) before refill; setNewVal table. Further (R8): a strategy fails only when the iterator or LMDB failed or the input order is wrong (no own rejections); Update never bypasses the per-key lookup; the endianness probe selects the integer comparator correctly.",
+		Explanation: staticNote + "Extracts and checks the decision tables of the three strategies the syncer uses: (R1) Update: Next → Get → Merge(stored) → setNewVal for every key; (R2) the IterUpdate callback: nine cells (stored-only / input-only / both × nil / equal / changed) each with exactly the prescribed single LMDB mutation or none; (R3) one step of iterBoth: six cells with exact callback arguments and exactly the consumed side(s) advancing; (R4) sortedness: an input key is accepted only if first or strictly greater than the previous one in the selected order, rejected only otherwise; (R5) comparator: integer comparator exactly for integerKey on little-endian hosts, three-way table, decoder widths; (R7) EmptyPut: Drop(dbi, false) before refill; setNewVal table. Further (R8): a strategy fails only when the iterator or LMDB failed or the input order is wrong (no own rejections); Update never bypasses the per-key lookup; the endianness probe selects the integer comparator correctly. The refill loop (doPut) and Update end successfully only when the iterator reported io.EOF.",
 		NotDecided:  "Extensional equality with a map-based reference over all inputs; LMDB cursor semantics; keys of mixed widths in one integer-key DBI.",
 		Assumptions: []string{"LMDB cursor iteration is in the DBI's key order"},
 	}, func(c *Check) {
@@ -334,7 +334,7 @@ func init() {
 	})
 
 	register("C13", propMeta{
-		Explanation: staticNote + "Decides the sweeper's per-entry table and scope: (R1) in the slice body an entry is deleted exactly when its header parses, the deleted flag is set and timestamp < cutoff (strict), as Del(dbi, scanner key, scanner value); (R2) the cutoff is now − RetentionDuration(), assigned once before the first slice, and RetentionDuration() is days × 24h without truncation (expression evaluated on sample configurations); (R3) a sweep transaction is opened only in native mode or for a DBI with the private prefix (same constant as the syncer's); (R4) that Del is the only LMDB mutator reachable from the sweeper; (R5) the slice resume cursor is fresh per DBI and recorded unconditionally at the end of each slice. Further (R6/R7): a slice resumes with SetRange on the saved (key, value) and steps past it exactly when it landed on that same entry; a failed slice transaction ends the pass with an error before the resume flag is looked at; the cutoff conversion cannot wrap; raw-read mode is not used.",
+		Explanation: staticNote + "Decides the sweeper's per-entry table and scope: (R1) in the slice body an entry is deleted exactly when its header parses, the deleted flag is set and timestamp < cutoff (strict), as Del(dbi, scanner key, scanner value); (R2) the cutoff is now − RetentionDuration(), assigned once before the first slice, and RetentionDuration() is days × 24h without truncation (expression evaluated on sample configurations); (R3) a sweep transaction is opened only in native mode or for a DBI with the private prefix (same constant as the syncer's); (R4) that Del is the only LMDB mutator reachable from the sweeper; (R5) the slice resume cursor is fresh per DBI and recorded unconditionally at the end of each slice. Further (R6/R7): a slice resumes with SetRange on the saved (key, value) and steps past it exactly when it landed on that same entry; a failed slice transaction ends the pass with an error before the resume flag is looked at; the cutoff conversion cannot wrap; raw-read mode is not used. The DBI loop of a pass is left successfully only at its end.",
 		NotDecided:  "That every expired marker is removed across slices (depends on lmdbscan's runtime behaviour); concurrency with application writes (LMDB write lock trusted).",
 		Assumptions: []string{"lmdbscan.Scanner iterates the DBI in order; Del(key, value) removes exactly that entry"},
 	}, func(c *Check) {
@@ -372,6 +372,8 @@ func init() {
 		ruleRetryAndNotify(c, "C16-R4")
 		ruleMarkCorrupt(c, "C16-R4")
 		ruleReceiverListing(c, "C16-R4", "C16-R4")
+		ruleCollectionExhausted(c, "C16-R4", fnRecvRun, `\(simpleblob\.BlobList\)\.Names@[\w~]+`, "the names of the listing", nil)
+		ruleCollectionExhausted(c, "C16-R4", fnRecvRun, `makemap@[\w~]+`, "the newest snapshot of every instance", nil)
 		ruleRunOnceExit(c, "C16-R5")
 		ruleCleanDisappeared(c, "C16-R5")
 		ruleWaitSet(c, "C16-R5")
@@ -383,7 +385,7 @@ func init() {
 
 func init() {
 	register("C20", propMeta{
-		Explanation: staticNote + "Extracts the encode and decode tables of the dupsort hack and interprets them (no code is run) on representative (key, value) pairs chosen from the statement (zero bytes next to the separator, values longer than the room left, boundary lengths, maximal keys): (R1) constant relations 511 / 255 / 4 / 1; (R2/R3) decode(encode(kv)) == kv on every cell, shadow key length <= 511, empty/oversized keys and malformed shadow keys refused, no index out of range; (R4) while encoding a DBI an equal or descending shadow key is refused; (R5) the transform is recorded when dumping and validated before merging (table); (R6) encode iff dupsort in the capture, decode+EmptyPut iff dupsort in the projection; native schema excludes the hack. Further: the shadow DBI is created with the allowed flag mask applied last.",
+		Explanation: staticNote + "Extracts the encode and decode tables of the dupsort hack and interprets them (no code is run) on representative (key, value) pairs chosen from the statement (zero bytes next to the separator, values longer than the room left, boundary lengths, maximal keys): (R1) constant relations 511 / 255 / 4 / 1; (R2/R3) decode(encode(kv)) == kv on every cell, shadow key length <= 511, empty/oversized keys and malformed shadow keys refused, no index out of range; (R4) while encoding a DBI an equal or descending shadow key is refused; (R5) the transform is recorded when dumping and validated before merging (table); (R6) encode iff dupsort in the capture, decode+EmptyPut iff dupsort in the projection; native schema excludes the hack. Further: the shadow DBI is created with the allowed flag mask applied last. The refill loop of EmptyPut ends successfully only when the iterator reported io.EOF (a tombstone must not end it).",
 		NotDecided:  "Reversibility over all byte strings (only the representative cells are interpreted); the full mirror cycle on real LMDB.",
 		Assumptions: []string{"the representative lengths cover the boundaries of the extracted conditions (every constant in the tables is hit on both sides)"},
 	}, func(c *Check) {
@@ -404,7 +406,7 @@ func init() {
 	})
 
 	register("C11", propMeta{
-		Explanation: staticNote + "Decides the mirror's decision tables and plumbing: (R1) capture table: an unchanged application value keeps its entry and timestamp, a changed or new one is stamped with the detection time; (R2) a key missing from the application DBI becomes a marker (Clean), via the IterUpdate table; (R3) the projection writes exactly the shadow value and deletes the key of a marker (reports the known empty-value defect); (R4) key order: IterUpdate derives integerKey from the DBI's MDB_INTEGERKEY flag, the comparator is selected by it, shadow DBIs are created with that flag from the application DBI (both creation sites); (R5) the sortedness check never rejects a valid first key; (R6) the detection time is taken inside the write transaction; (R7) both passes visit every non-private DBI; raw-read mode is restored after a dump. Further (R8): raw-read mode is never on in a write transaction (complete set of writers of Txn.RawRead enumerated); the endianness probe stores true exactly under the low-byte-first outcome.",
+		Explanation: staticNote + "Decides the mirror's decision tables and plumbing: (R1) capture table: an unchanged application value keeps its entry and timestamp, a changed or new one is stamped with the detection time; (R2) a key missing from the application DBI becomes a marker (Clean), via the IterUpdate table; (R3) the projection writes exactly the shadow value and deletes the key of a marker (reports the known empty-value defect); (R4) key order: IterUpdate derives integerKey from the DBI's MDB_INTEGERKEY flag, the comparator is selected by it, shadow DBIs are created with that flag from the application DBI (both creation sites); (R5) the sortedness check never rejects a valid first key; (R6) the detection time is taken inside the write transaction; (R7) both passes visit every non-private DBI; raw-read mode is restored after a dump. Further (R8): raw-read mode is never on in a write transaction (complete set of writers of Txn.RawRead enumerated); the endianness probe stores true exactly under the low-byte-first outcome. Both mirror loops are left successfully only at their end (COLLECTION-EXHAUSTED).",
 		NotDecided:  "The mirror's extensional equality with a reference over all contents; changes made while the syncer is down.",
 		Assumptions: []string{"instances share one monotone clock (documented)"},
 	}, func(c *Check) {
@@ -498,6 +500,8 @@ func init() {
 		ruleBuildParse(c, "C15-R2")
 		ruleSanitiser(c, "C15-R3")
 		ruleReceiverListing(c, "C15-R4", "C15-R4")
+		ruleCollectionExhausted(c, "C15-R4", fnRecvRun, `\(simpleblob\.BlobList\)\.Names@[\w~]+`, "the names of the listing", nil)
+		ruleCollectionExhausted(c, "C15-R4", fnRecvRun, `makemap@[\w~]+`, "the newest snapshot of every instance", nil)
 		ruleCleanerDeletes(c, "C15-R4", "C15-R4", "C15-R4", "C15-R4", "C15-R4", "C15-R4")
 		ruleSendNaming(c, "C15-R2")
 	})
@@ -519,6 +523,7 @@ func init() {
 		ruleLockset(c, "C17-R1", "C17-R3", "C17-R4", "C17-R3")
 		ruleCommittedCopied(c, "C17-R2")
 		ruleTopicChannels(c, "C17-R3")
+		ruleCollectionExhausted(c, "C17-R3", "utils/topics.(*Topic[T]).Publish", `[^()]*\.subscribers`, "the subscribers of the topic", nil)
 		ruleGetGlobal(c, "C17-R5")
 		ruleCancellableLoops(c, "C17-R6")
 		ruleSleepContext(c, "C17-R6")
@@ -548,6 +553,10 @@ func init() {
 		ruleReadAtCursor(c, "C07-R3", "C07-R3")
 		ruleLengthGuarded(c, "C07-R3")
 		ruleNextEOF(c, "C07-R3")
+		// every DBI is written, every field of the message is looked at
+		ruleCollectionExhausted(c, "C07-R1", "snapshot.(*Snapshot).WriteTo", `[^()]*\.Databases`, "the DBIs of the snapshot", nil)
+		ruleCollectionExhausted(c, "C07-R4", "snapshot.(*Snapshot).Unmarshal", `\(\*csproto\.Decoder\)\.More@[\w~]+`, "the fields of the message", nil)
+		ruleCollectionExhausted(c, "C07-R4", "snapshot.(*Meta).Unmarshal", `\(\*csproto\.Decoder\)\.More@[\w~]+`, "the fields of the message", nil)
 		ruleNoReceiverReset(c, "C07-R5")
 		c.Rule("C07-R6", "OUTPUT-FRESH: encoder results do not alias package-level storage")
 		ruleEncoderOutputFresh(c, "C07-R6")
@@ -572,6 +581,8 @@ func init() {
 		ruleDownloaderLoad(c, "C08-R4", "C08-R4", "C08-R4")
 		ruleMarkCorrupt(c, "C08-R4")
 		ruleReceiverListing(c, "C08-R4", "C08-R4")
+		ruleCollectionExhausted(c, "C08-R4", fnRecvRun, `\(simpleblob\.BlobList\)\.Names@[\w~]+`, "the names of the listing", nil)
+		ruleCollectionExhausted(c, "C08-R4", fnRecvRun, `makemap@[\w~]+`, "the newest snapshot of every instance", nil)
 		ruleRetryAndNotify(c, "C08-R4")
 		ruleCleanDisappeared(c, "C08-R4")
 		c.Rule("C08-R7", "LABEL-ARITY: metric vectors get as many label values as they declare (a mismatch panics on the failure path)")
